@@ -593,7 +593,7 @@ waits passively for `k`. -/
 
 /-- **No lost mwake-up for clients that wait for several keys.** Every step of the repaired behaviour keeps,
     for every key, "as many mwake-ups outstanding as the list has elements, or nobody waits passively". -/
-theorem mfull_step (s : MState) (st : MStep) (h : MFull s) : MFull (mstep true s st) := by
+theorem mfull_step (s : MState) (st : MStep) (h : MFull s) : MFull (mstep true s st true) := by
   cases st with
   | push k n =>
     refine ⟨fun j => ?_, allOk_wake k n s.cs h.ok⟩
@@ -700,6 +700,31 @@ theorem mfull_step (s : MState) (st : MStep) (h : MFull s) : MFull (mstep true s
             rcases List.mem_or_eq_of_mem_set hd with e | e
             · exact h.ok d e
             · subst e; exact ⟨fun x => by simp at x, fun k x => by simp at x⟩
+  | reenter i =>
+    simp only [mstep]
+    split
+    · exact h
+    · rename_i c hc
+      have hcm := List.mem_of_getElem? hc
+      split
+      · rename_i hcond
+        simp only [Bool.and_eq_true, Bool.not_eq_eq_eq_not, Bool.not_true, Option.isNone_iff_eq_none] at hcond
+        refine ⟨fun k => ?_, ?_⟩
+        · show MInv { s with cs := s.cs.set i { c with queued := true, pending := true } } k
+          have hts := tokens_set k s.cs i c { c with queued := true, pending := true } hc
+          simp only at hts
+          rcases h.inv k with a | a
+          · left; show s.len k ≤ tokens k (s.cs.set i _); omega
+          · right
+            intro d hd hwd
+            rcases List.mem_or_eq_of_mem_set hd with e | e
+            · exact a d e hwd
+            · subst e; rfl
+        · intro d hd
+          rcases List.mem_or_eq_of_mem_set hd with e | e
+          · exact h.ok d e
+          · subst e; exact ⟨fun x => by simp [hcond.1.2] at x, fun k x => by simp [hcond.1.2] at x⟩
+      · exact h
 
 /-- … hence in every reachable state, whatever the clients, keys and interleaving -/
 theorem mfull_reachable (steps : List MStep) : MFull (mrun true {} steps) := by
@@ -746,6 +771,22 @@ theorem multi_key_lost_wakeup_before_repair :
 theorem multi_key_wakeup_passed_on :
     let s := mrun true {} d90Trace
     s.len 1 = 1 ∧ s.cs = [{ keys := [1], pending := false, token := some 1, queued := false }] := by
+  decide
+
+/-- a client is woken, finds its element taken, and a push lands before it has linked itself into the queue
+    again -/
+def reenterTrace : List MStep :=
+  [.register [0], .look 0, .push 0 1, .steal 0, .retry 0, .push 0 1, .reenter 0]
+
+/-- without the look that follows the re-registration (the seeded change C11-f) the element stays in the list
+    and the client waits passively: a lost wake-up — the model's `lookAgain` flag is what that look is for -/
+theorem reenter_without_look_loses_wakeup :
+    let s := mrun true {} reenterTrace false
+    s.len 0 = 1 ∧ tokens 0 s.cs = 0 ∧ s.cs = [{ keys := [0], pending := false, token := none, queued := true }] := by
+  decide
+
+theorem reenter_with_look_is_served :
+    (mrun true {} (reenterTrace ++ [.look 0])).cs = [] ∧ (mrun true {} (reenterTrace ++ [.look 0])).len 0 = 0 := by
   decide
 
 end RedisEmu
